@@ -104,7 +104,7 @@ def run(prog, rep, tier):
             for bi, t in b.calls():
                 names = callee_names(t)
                 if any(re.search(r"Vec::<T, A>::push$", n) for n in names) and "[u8" in t["f"].get("ga", ""):
-                    e = Renderer(b, depth=10, through_names=True).operand(t["args"][1], 10)
+                    e = Renderer(b, depth=30, through_names=True).operand(t["args"][1], 30)
                     # the trailing key byte is a prefix length: the net's mask (also as the third field of the
                     # destructured (family, bytes, mask) tuple) or a length iterated over 0..=mask
                     txt = show(e, 400)
@@ -149,13 +149,66 @@ def run(prog, rep, tier):
     # ---------------------------------------------------------------- R12.2
     r2 = rep.rule("R12.2", "classification guards of validate: matched / unmatched pushes and the state assignments")
     r2.analysed(fv.name)
+    LISTS = ("matched", "unmatched_asn", "unmatched_length")
+    # which list is which: a field of the RpkiValidation under construction, or a local that is moved into that field
+    # when the result is built at the end
+    roles = {}
+    for b in bodies:
+        for bi, si, s in b.aggregates(re.compile(r"rustybgp_table::RpkiValidation$")):
+            fnm = s["rv"].get("fn") or []
+            for i, fo in enumerate(s["rv"]["fields"]):
+                q = fo.get("c") or fo.get("m")
+                if q is not None and not q.get("p") and i < len(fnm) and fnm[i] in LISTS:
+                    # the operand and every local it was moved from
+                    work, seen_l = [q["l"]], set()
+                    while work:
+                        l_ = work.pop()
+                        if l_ in seen_l:
+                            continue
+                        seen_l.add(l_)
+                        roles[(b.key, l_)] = fnm[i]
+                        for bi2, si2, s2 in b.defs().get(l_, []):
+                            if si2 != "t" and s2["rv"]["r"] == "use":
+                                q2 = s2["rv"]["o"].get("c") or s2["rv"]["o"].get("m")
+                                if q2 is not None and not q2.get("p"):
+                                    work.append(q2["l"])
+
+    def place_role(b, p, depth=4):
+        for e in p.get("p") or []:
+            if isinstance(e, dict) and e.get("n") in LISTS:
+                return e["n"]
+        if (b.key, p["l"]) in roles:
+            return roles[(b.key, p["l"])]
+        if depth <= 0:
+            return None
+        for bi, si, s in b.defs().get(p["l"], []):
+            if si == "t":
+                # Deref::deref / as_ref style accessors: look at the receiver
+                for a in s.get("args", [])[:1]:
+                    q = a.get("c") or a.get("m")
+                    if q is not None:
+                        r_ = place_role(b, q, depth - 1)
+                        if r_:
+                            return r_
+                continue
+            rv = s["rv"]
+            q = rv.get("p") if rv["r"] in ("ref", "rawptr") else ((rv.get("o") or {}).get("c") or (rv.get("o") or {}).get("m") if rv["r"] in ("use", "cast") else None)
+            if q is not None:
+                r_ = place_role(b, q, depth - 1)
+                if r_:
+                    return r_
+        return None
+
+    def operand_role(b, o):
+        q = o.get("c") or o.get("m")
+        return place_role(b, q) if q is not None else None
+
     pushes = {}
     for b in bodies:
         for bi, t in b.calls(re.compile(r".*Vec::<T, A>::push")):
-            e = Renderer(b, depth=8).operand(t["args"][0], 8)
-            for f in ("matched", "unmatched_asn", "unmatched_length"):
-                if f in expr_fields(e):
-                    pushes.setdefault(f, []).append((b, bi))
+            f = operand_role(b, t["args"][0])
+            if f:
+                pushes.setdefault(f, []).append((b, bi))
     for f in ("matched", "unmatched_asn", "unmatched_length"):
         if f not in pushes:
             r2.unanalysable("validate never pushes to result.%s" % f, fv.loc())
@@ -189,55 +242,79 @@ def run(prog, rep, tier):
             r2.ok("unmatched_length.push under len>max_length")
         else:
             r2.fail(fv.name, "unmatched_length-guard", "unmatched_length is filled on the wrong side of the length test", b.loc(bi))
-    # state assignments
-    states = []
-    for b in bodies:
-        for bi, si, s in field_writes(b, "state"):
-            ee = Renderer(b, depth=6).rvalue(s["rv"], 6)
-            v = ee[2] if ee[0] == "agg" else None
-            gs = flat_guards(b, bi)
-            conds = []
-            for g, labels, how in gs:
-                if g[0] == "call" and g[1].endswith("::is_empty"):
-                    fl = [f for f in expr_fields(g) if f in ("matched", "unmatched_asn", "unmatched_length")]
-                    if fl:
-                        conds.append((fl[0], "empty" if labels == {"true"} else "nonempty"))
-            states.append((v, sorted(conds), b, bi))
-    seen_valid = seen_invalid = 0
-    for v, conds, b, bi in states:
-        c = dict(conds)
-        if v == "Valid":
-            seen_valid += 1
-            if c.get("matched") == "nonempty":
-                r2.ok("state=Valid under matched non-empty")
-            else:
-                r2.fail(fv.name, "valid-guard", "state Valid assigned without matched being non-empty (%s)" % conds, b.loc(bi))
-        elif v == "Invalid":
-            seen_invalid += 1
-            if c.get("matched") == "empty" and (c.get("unmatched_asn") == "nonempty" or c.get("unmatched_length") == "nonempty"):
-                r2.ok("state=Invalid under matched empty ∧ some unmatched list non-empty")
-            else:
-                r2.fail(fv.name, "invalid-guard", "state Invalid assigned under %s" % conds, b.loc(bi))
-        elif v == "NotFound":
-            r2.ok("state=NotFound assignment")
+    # state decision table: on every entry->return path the state that ends up in the result agrees with the emptiness
+    # tests of the three lists taken on that path (flag / field writes / tuple-then-build spellings alike)
+    from ..paths import enumerate_paths, PathLimit
+    try:
+        paths = enumerate_paths(fv, Renderer(fv, depth=10), max_paths=20000)
+    except PathLimit:
+        paths = None
+        r2.unanalysable("validate: too many paths for the state decision table", fv.loc())
+    seen = {"Valid": 0, "Invalid": 0, "NotFound": 0}
+    bad = {}
+    for conds, blocks, env in (paths or []):
+        st_ = [v for k_, v in env.items() if k_[0] == 0 and k_[1] and k_[1][-1] == "state"]
+        if not st_:
+            continue             # the None return (no table for the family) or a path that builds no result
+        state = st_[0]
+        facts = {}
+        for br, labels in conds:
+            e = br.expr
+            if br.bi not in fv.blocks and False:
+                continue
+            t_ = fv.blocks[br.bi]["t"]
+            # the switch operand is the bool result of an is_empty call: find that call
+            o = t_["o"]
+            q = o.get("c") or o.get("m")
+            neg = False
+            call = None
+            steps = 0
+            while q is not None and steps < 4 and call is None:
+                steps += 1
+                ds = [d for d in fv.defs().get(q["l"], []) if d[0] in fv.live]
+                if len(ds) != 1:
+                    break
+                bi2, si2, s2 = ds[0]
+                if si2 == "t":
+                    call = s2
+                elif s2["rv"]["r"] == "un" and s2["rv"].get("op") == "Not":
+                    neg = not neg
+                    q = s2["rv"]["a"].get("c") or s2["rv"]["a"].get("m")
+                elif s2["rv"]["r"] == "use":
+                    q = s2["rv"]["o"].get("c") or s2["rv"]["o"].get("m")
+                else:
+                    break
+            if call is None or not any(n.endswith("::is_empty") for n in callee_names(call)) or len(labels) != 1:
+                continue
+            role = operand_role(fv, call["args"][0])
+            if not role:
+                continue
+            val = (labels == frozenset({"true"}))
+            if fv.blocks[br.bi]["t"]["ty"] == "bool" and neg:
+                val = not val
+            facts.setdefault(role, "empty" if val else "nonempty")
+        if state in seen:
+            seen[state] += 1
+        ok = True
+        if state == "Valid":
+            ok = facts.get("matched") == "nonempty"
+        elif state == "Invalid":
+            ok = facts.get("matched") == "empty" and (facts.get("unmatched_asn") == "nonempty" or facts.get("unmatched_length") == "nonempty")
+        elif state == "NotFound":
+            ok = all(facts.get(f, "empty") == "empty" for f in LISTS)
         else:
-            r2.unanalysable("validate assigns state from a non-literal", b.loc(bi))
-    if seen_valid < 1 or seen_invalid < 1:
-        r2.unanalysable("validate: Valid/Invalid assignments found %d/%d" % (seen_valid, seen_invalid), fv.loc())
-    # default NotFound in the initial aggregate
-    init = [s for b in bodies for bi, si, s in b.aggregates(re.compile(r"rustybgp_table::RpkiValidation"))]
-    ok_init = False
-    for s in init:
-        rend = Renderer(fv, depth=6)
-        fn = s["rv"]["fn"]
-        if "state" in fn:
-            e = rend.operand(s["rv"]["fields"][fn.index("state")], 6)
-            if e[0] == "agg" and e[2] == "NotFound":
-                ok_init = True
-    if ok_init:
-        r2.ok("RpkiValidation initialised with state NotFound")
-    else:
-        r2.fail(fv.name, "default-state", "the result is not initialised to NotFound", fv.loc())
+            bad.setdefault("state-not-literal", (state, facts))
+            continue
+        if not ok:
+            bad.setdefault({"Valid": "valid-guard", "Invalid": "invalid-guard", "NotFound": "default-state"}[state], (state, facts))
+    if paths is not None:
+        for key_, (state, facts) in sorted(bad.items()):
+            r2.fail(fv.name, key_, "the result's state is %s on a path where %s (Valid needs matched non-empty; Invalid needs matched empty and an unmatched list non-empty; "
+                    "NotFound needs all three empty)" % (state, sorted(facts.items())), fv.loc())
+        if not bad and seen["Valid"] and seen["Invalid"] and seen["NotFound"]:
+            r2.ok("validate: state is Valid / Invalid / NotFound exactly as the emptiness of matched / unmatched_asn / unmatched_length says (%d / %d / %d paths)" % (seen["Valid"], seen["Invalid"], seen["NotFound"]))
+        elif not bad:
+            r2.unanalysable("validate: Valid/Invalid/NotFound results found on %d/%d/%d paths" % (seen["Valid"], seen["Invalid"], seen["NotFound"]), fv.loc())
     # origin derivation
     toks = {c for b in bodies for c in sum(([n for n in callee_names(t)] for _, t in b.calls()), [])}
     if any(c.endswith("Attribute::as_path_origin") for c in toks):
@@ -292,7 +369,7 @@ def check_vrp_identity(prog, r3):
     # drop_source matches by the same source identity
     dk = prog.one(r"rustybgp_table::RpkiTable::drop_source")
     dfv = view(prog, dk)
-    if any(any(n.endswith("Arc::<T, A>::ptr_eq") for n in callee_names(t)) for _, t in dfv.calls()):
+    if any(any(n.endswith("Arc::<T, A>::ptr_eq") for n in callee_names(t)) for kk in prog.with_closures(dk) for _, t in view(prog, kk).calls()):
         r3.ok("drop_source matches by Arc identity of the cache address (same identity insert/remove use)")
     else:
         r3.fail(dfv.name, "drop-identity", "drop_source does not match VRPs by the cache identity used by insert/remove", dfv.loc())
